@@ -466,20 +466,34 @@ impl<T: Qcow2IoOps> Qcow2Dev<T> {
 
         log::debug!("flush_meta: entry");
         loop {
+            // clear the flag before looking for dirty meta data: whatever
+            // gets dirty while this pass is waiting for io raises it again,
+            // and it is raised again if the pass fails
+            self.mark_need_flush(false);
+
             // refcount is usually small size & continuous, so simply
             // flush all
-            self.flush_refcount().await?;
+            if let Err(e) = self.flush_refcount().await {
+                self.mark_need_flush(true);
+                return Err(e);
+            }
 
             // read lock prevents update on l1 table, meantime
             // normal read and cache-hit write can go without any
             // problem
             let l1 = &*self.l1table.read().await;
 
-            let done = self
+            let done = match self
                 .flush_meta_generic(l1, &self.l2cache, |off| self.l2_slice_key_of_l1_off(off))
-                .await?;
+                .await
+            {
+                Ok(done) => done,
+                Err(e) => {
+                    self.mark_need_flush(true);
+                    return Err(e);
+                }
+            };
             if done {
-                self.mark_need_flush(false);
                 break;
             }
         }
